@@ -270,7 +270,7 @@ def part_a(rep, col, tier, tree):
     _ST["lang"] = lang
 
     # ---- enumerator layers
-    layers = ["layer_S", "layer_D", "layer_F", "layer_A"] + (["layer_E"] if tier != "quick" else [])
+    layers = ["layer_S", "layer_D", "layer_F", "layer_A", "op_matrix", "effect_order"] + (["layer_E"] if tier != "quick" else [])
     cases = lc.all_cases(tier, layers)
     res = langrun.run_all(lang, cases, ["native"])
     byid = dict((c["id"], c) for c in cases)
@@ -371,7 +371,7 @@ STAT = re.compile(r"^STAT family=(\S+) histories=(\d+) ops=(\d+) checks=(\d+) fa
 def families(tier):
     q = tier == "quick"
     fams = [("da:" + k, 6 if q else 7) for k in ("int", "u8", "float", "bool", "str", "arr", "st24", "st12", "st1")]
-    fams += [("li", 6 if q else 8), ("ls", 6 if q else 8), ("gc", 6 if q else 7), ("ns", 4 if q else 5)]
+    fams += [("li", 6 if q else 8), ("ls", 6 if q else 7), ("gc", 6 if q else 8), ("ns", 4 if q else 5)]
     return fams
 
 
@@ -492,7 +492,7 @@ def run(tier):
         "part (a): programs stay inside the language's defined behaviour (NanoRef-classified for the enumerator layers; every index/pop/remove/slice of the text families is guarded by a length test); leaks are not violations (detect_leaks=0)",
         "part (a): the C compiler is clang with -fsanitize=address,undefined -fno-sanitize-recover=undefined plus nanoc's own flags (incl. -fwrapv) and -Wno-parentheses-equality; programs the front end or the C compiler refuse are counted, not judged (C04/C05)",
         "part (a): T = all sequences of <= 2 statements over %d statements + all triples over a %d-statement core; sequences extending an already failing sequence are not run; B = 7 element kinds x lengths around 8/16/32(/64) x 11 operations, generated List<T> for 1-4 field structs, list_int/list_string; X = all in-range (start,length) pairs of short strings" % (
-            len(P.OPS), 12 if tier == "quick" else len(P.CORE)),
+            len(P.OPS), 12 if tier == "quick" else len(P.CORE_THOROUGH)),
         "part (a): not compiled by the native backend and therefore outside the alphabet: " + "; ".join(sorted(P.DROPPED)),
         "part (b): histories of length <= L (first operation = constructor choice): %s; indices: every in-range index for length <= 4, else {0,1,len/2,len-2,len-1}; 'fill' pushes until length == capacity; dyn_array_insert_* is declared in dyn_array.h but not defined anywhere, so it is not in the alphabet" % ", ".join("%s L=%d" % f for f in fams),
         "part (b): gc model from the documented contract: gc_alloc starts at 1, gc_struct_set_field retains the new and releases the old value, dyn_array_push_array borrows (no retain), reaching 0 frees at once and releases struct fields, gc_collect_cycles must not free anything still counted (cycle reclamation is not demanded); release is only issued while the model count of the harness' own references is > 0",
